@@ -19,7 +19,6 @@ import mpmath
 import numpy as np
 
 DPS = 60
-_SQRT2 = None
 
 
 def _ctx():
